@@ -48,6 +48,13 @@ func TestKeysAndSignatures(t *testing.T) {
 			rt.Fail(t, "C14/public-seed", "Public()/Seed() differ from crypto/ed25519")
 			return
 		}
+		if p := pk.Public().(pated.PublicKey); len(p) == 32 {
+			p[0] ^= 0xFF // Public() hands out a copy: overwriting it must not touch the private key
+			if !bytes.Equal(pk, sk) {
+				rt.Fail(t, "C14/public-aliased", "overwriting the value returned by Public() changed the private key")
+				return
+			}
+		}
 		ps, ss := pated.Sign(pk, msg), stded.Sign(sk, msg)
 		if !bytes.Equal(ps, ss) {
 			rt.Fail(t, "C14/sign", "Sign differs from crypto/ed25519: seed %x msg %x\n got %x\nwant %x", seed, msg, ps, ss)
@@ -131,6 +138,20 @@ func TestGenerateKeyEntropy(t *testing.T) {
 				if a.consumed != b.consumed || a.calls != b.calls {
 					rt.Fail(t, "C14/generatekey-consumption", "GenerateKey consumed %d bytes in %d reads, crypto/ed25519 %d in %d (p=%d chunk=%d)", a.consumed, a.calls, b.consumed, b.calls, p, chunk)
 					return
+				}
+				if perr == nil {
+					// the two results are independent values: the caller may overwrite the public key it was handed
+					for i := range ppub {
+						ppub[i] ^= 0xFF
+					}
+					if !bytes.Equal(ppriv, spriv) || !bytes.Equal(ppriv.Public().(pated.PublicKey), spriv.Public().(stded.PublicKey)) {
+						rt.Fail(t, "C14/generatekey-aliased", "after the caller overwrote the public key returned by GenerateKey, the private key differs from crypto/ed25519's")
+						return
+					}
+					if m := []byte("m"); !bytes.Equal(pated.Sign(ppriv, m), stded.Sign(spriv, m)) {
+						rt.Fail(t, "C14/generatekey-aliased", "after the caller overwrote the returned public key, signatures differ from crypto/ed25519's")
+						return
+					}
 				}
 				if perr != nil && (ppub != nil || ppriv != nil) {
 					rt.Fail(t, "C14/generatekey-error", "GenerateKey returned a key together with an error")
@@ -248,6 +269,12 @@ func TestVerifyDifferential(t *testing.T) {
 			// R = [S]B verifies whenever [k]A is the identity: always for A = identity (in any encoding), with probability 1/order otherwise
 			A = append([]byte{}, gen.Pick(t, append(append([][]byte{}, smallOrder...), nonCanonicalA...), "key")...)
 			S = ref.EdScalarLE(rapid.SliceOfN(rapid.Byte(), 32, 32).Draw(t, "S"))
+			if gen.Uniform(t, 3, "largeCanonicalS") == 0 {
+				// canonical S with bit 252 set (2^252 <= S < L): an honest signer produces one with probability ~2^-127
+				top := new(big.Int).Lsh(big.NewInt(1), 252)
+				S = ref.IntToLE(gen.Pick(t, []*big.Int{top, new(big.Int).Add(top, big.NewInt(1)), new(big.Int).Sub(ref.EdL, big.NewInt(1)), new(big.Int).Sub(ref.EdL, big.NewInt(2)),
+					new(big.Int).Add(top, new(big.Int).Rsh(new(big.Int).Sub(ref.EdL, top), 1))}, "Sval"), 32)
+			}
 			R = ref.EdEncode(ref.EdScalarMult(ref.EdScalarInt(S), ref.EdBase()))
 		case "forged-noncanonical-R":
 			// [S]B = R + [k]A holds with A = identity, S = 0, R = identity: valid when R is the canonical encoding;
